@@ -33,6 +33,8 @@ def run_campaign(spec):
     env = dict(os.environ)
     env["OQ_FUZZ_TARGET"] = spec["target"]
     env["OQ_FUZZ_CRASH"] = crash_json
+    stats_json = os.path.join(work, "stats.json")
+    env["OQ_FUZZ_STATS"] = stats_json
     env["OQ_FUZZ_SEEDED"] = "1" if spec["corpus"] == "seeded" else "0"
     env["PYTHONPATH"] = os.pathsep.join([VERIF_DIR, os.path.join(VERIF_DIR, ".deps"), env.get("PYTHONPATH", "")])
     cmd = [sys.executable, os.path.join(VERIF_DIR, "tools", "fuzz_target.py"), corpus,
@@ -56,6 +58,10 @@ def run_campaign(spec):
                        capture_output=True, text=True, timeout=300, cwd=work)
         summ = json.load(open(out_json)) if os.path.exists(out_json) else {"nt_hashes": [], "samples": [], "corpus": 0}
         cov = re.findall(r"cov: (\d+)", log)
+        if os.path.exists(stats_json):  # non-trivial cases among everything executed (the final corpus only keeps coverage-increasing inputs)
+            st_ = json.load(open(stats_json))
+            summ["nt_hashes"] = sorted(set(summ["nt_hashes"]) | set(st_.get("nt_hashes", [])))
+            summ["samples"] = (summ["samples"] + st_.get("samples", []))[:3]
         return {"bulk": {"evaluations": execs, "nt_hashes": summ["nt_hashes"], "samples": summ["samples"][:3]},
                 "classes": ["corpus:" + spec["corpus"]], "nontrivial": False,
                 "note": {"executions": execs, "corpus_entries": summ["corpus"], "coverage_edges": int(cov[-1]) if cov else None}}
